@@ -63,22 +63,30 @@ def madd(a, b):
     return TOP
 
 
-def shaped(ty, name, zero_leaves):
-    """an operand of the given tower type whose base-field components are opaque atoms (or 0 for the listed ones)"""
-    if ty in FP:
+def shaped(ty, name, zero_leaves, atom_ty=None):
+    """an operand of the given tower type whose components of type `atom_ty` (default: the base field) are opaque atoms (or 0 for the
+    listed ones)"""
+    if ty in FP or ty == atom_ty:
         return ZERO if name in zero_leaves else Mono(1, {name: 1})
     inner, n = TOWER[ty]
-    return Adt(ty, ty.split("::")[-1], [shaped(inner, "%s.%d" % (name, i), zero_leaves) for i in range(n)])
+    return Adt(ty, ty.split("::")[-1], [shaped(inner, "%s.%d" % (name, i), zero_leaves, atom_ty) for i in range(n)])
 
 
 class MonoDomain:
     sound_loops = False
 
-    def __init__(self, F):
+    def __init__(self, F, atom_ty=None):
         self.F = F
+        self.atom_ty = atom_ty          # when set: values of this (intermediate tower) type are the opaque atoms
 
     def variant_index(self, ex, name):
         return {"None": 0, "Some": 1, "Continue": 0, "Break": 1, "Ok": 0, "Err": 1}.get(name)
+
+    def _is_atom_ty(self, fk):
+        ty = (fk.get("impl_self") or fk.i or "")
+        if self.atom_ty:
+            return self.atom_ty.split("::")[-1] in ty and not any(t.split("::")[-1] in ty for t in TOWER if t != self.atom_ty and len(t) > len(self.atom_ty))
+        return any(p.split("::")[-1] in ty and "fq2" not in ty.lower() and "fq4" not in ty.lower() and "fq12" not in ty.lower() for p in FP)
 
     def refine(self, ex, fr, cond, truth):
         if cond[1] == "iszero":
@@ -104,11 +112,12 @@ class MonoDomain:
         a = [deref_value(ex, x) for x in args]
         M = lambda x: isinstance(x, Mono)
         if n in ("zero",) and not a:
-            ty = (fk.get("impl_self") or fk.i or "")
-            return ZERO if any(p.split("::")[-1] in ty and "fq2" not in ty.lower() and "fq4" not in ty.lower() and "fq12" not in ty.lower() for p in FP) else NotImplemented
+            return ZERO if self._is_atom_ty(fk) else NotImplemented
         if n in ("one",) and not a:
-            ty = (fk.get("impl_self") or fk.i or "")
-            return Mono(1) if any(p.split("::")[-1] in ty and "fq2" not in ty.lower() and "fq4" not in ty.lower() and "fq12" not in ty.lower() for p in FP) else NotImplemented
+            return Mono(1) if self._is_atom_ty(fk) else NotImplemented
+        if n == "mul_by_nonresidue" and len(a) == 1 and M(a[0]) and self.atom_ty:
+            # multiplication of an atom by its level's generator: an opaque constant factor (no relation of it is ever used)
+            return mmul(Mono(1, {"ξ": 1}), a[0])
         if n == "is_zero" and len(a) == 1 and (M(a[0]) or a[0] is TOP):
             x = a[0]
             if M(x) and x.c != 0 and len(x.e) == 1 and x.e[0][1] == 1 and x.c == 1:
@@ -193,8 +202,8 @@ def _decided(v):
     return all(isinstance(x, Mono) for x in _leaves(v, [])) and _shape(v) is not None
 
 
-def run_paths(F, b, operands):
-    dom = MonoDomain(F)
+def run_paths(F, b, operands, atom_ty=None):
+    dom = MonoDomain(F, atom_ty)
     in_fields = lambda d: ((F.bodies.get(d).rec.get("span") or {}).get("file") or "").startswith("src/fields") if F.bodies.get(d) is not None else False
     ex = AbsExec(F, dom, max_steps=200000, max_paths=512, inline=in_fields)
     ex.root_path = b.rec["path"]
@@ -227,11 +236,27 @@ def rule_shortcut_formulas(prop, repo, types):
             continue
         R.instance()
         names = ["a", "b"][:len(ins)]
+        bad = []
+        nguards = 0
+        # two granularities: base-field components as atoms, and (for Fq4 / Fq12) the components one level down as atoms
+        for atom_ty in [None] + ([TOWER[ty][0]] if TOWER[ty][0] not in FP else []):
+            bad_g, ng, j_ = compare_shortcuts(F, b, ty, ins, names, atom_ty)
+            bad += bad_g
+            nguards += ng
+            judged += j_
+        R.check(not bad, "%s:shortcut-formula:%s" % (prop, b.rec["path"]), "%s: %s" % (b.rec["path"], "; ".join(bad[:2])), b.file_line(), b.rec["path"],
+                sample={"fn": b.rec["path"], "guards_compared": nguards} if nguards else None)
+    R.note("%d guarded shortcuts compared with the general formula of their function" % judged)
+    return R.finish()
+
+
+def compare_shortcuts(F, b, ty, ins, names, atom_ty):
+    judged = 0
+    if True:
         try:
-            rows = run_paths(F, b, [(i, shaped(ty, nm, ())) for i, nm in zip(ins, names)])
+            rows = run_paths(F, b, [(i, shaped(ty, nm, (), atom_ty)) for i, nm in zip(ins, names)], atom_ty)
         except (FactsError, RecursionError, Exception):
-            R.ok()
-            continue
+            return [], 0, 0
         guards = []
         for v, pc in rows:
             z = tuple(sorted({k for k, val in pc if val and k not in (None, "assumed-zero")}))
@@ -241,7 +266,7 @@ def rule_shortcut_formulas(prop, repo, types):
         for z in guards[:8]:
             fast = [v for v, pc in rows if tuple(sorted({k for k, val in pc if val and k not in (None, "assumed-zero")})) == z and not any(k is None and val for k, val in pc)]
             try:
-                rows2 = run_paths(F, b, [(i, shaped(ty, nm, set(z))) for i, nm in zip(ins, names)])
+                rows2 = run_paths(F, b, [(i, shaped(ty, nm, set(z), atom_ty)) for i, nm in zip(ins, names)], atom_ty)
             except (FactsError, RecursionError, Exception):
                 continue
             # the general formula: the paths on which no zero test of an opaque component (or of an assumed-zero one) answered "zero"
@@ -256,10 +281,7 @@ def rule_shortcut_formulas(prop, repo, types):
                 # the shortcut's value with the guard's components set to zero
                 if _shape(_subst(v, set(z))) not in ms:
                     bad.append("with %s zero the general formula gives %s, the shortcut %s" % (list(z), [repr(_leaves(m, []))[:80] for m in main][:1], repr(_leaves(_subst(v, set(z)), []))[:80]))
-        R.check(not bad, "%s:shortcut-formula:%s" % (prop, b.rec["path"]), "%s: %s" % (b.rec["path"], "; ".join(bad[:2])), b.file_line(), b.rec["path"],
-                sample={"fn": b.rec["path"], "guards_compared": len(guards)} if guards else None)
-    R.note("%d guarded shortcuts compared with the general formula of their function" % judged)
-    return R.finish()
+        return bad, len(guards), judged
 
 
 def _subst(v, zeros):
